@@ -88,6 +88,12 @@ def real_cases(ctx, rng, nseeds):
             for step in range(3 if si else 6):
                 idx = idxs[(si + step) % len(idxs)] if (step + si) % 3 else rng.randrange(2 ** 32)
                 del calls[:]
+                if (si + step) % 2 == 1:
+                    # other queries on the same key objects first (uncompressed forms, addresses): derivation must not depend on them
+                    outcome(node.private_key.point.hash160, False)
+                    outcome(node.pub.point.address, False)
+                    outcome(node.pub.point.sec, False)
+                    outcome(node.xpub)
                 ch = outcome(node.child, idx)
                 pubch = outcome(node.pub.child, idx)
                 sec = node.private_key.point.sec()
@@ -129,6 +135,38 @@ def real_cases(ctx, rng, nseeds):
                               "hr": [h256row(raw)], "back_ok": back[0] == "ok", "back_text": T(bt[1]) if bt[0] == "ok" else [], "mainnet": mainnet,
                               "back_mainnet": (back[1].network == "mainnet") if back[0] == "ok" else (not mainnet)})
                 ctx.nontriv(("xkey", v))
+        # SLIP-132 wallets: a root created with explicit version bytes keeps them along private and public derivation
+        for vi in range(1, 5):
+            if si >= 3 and vi != 1 + si % 4:
+                continue
+            fam = "main" if net == "mainnet" else "test"
+            pv, uv = bytes.fromhex(VERSIONS["prv-" + fam][vi]), bytes.fromhex(VERSIONS["pub-" + fam][vi])
+            rootv = outcome(hd.HDPrivateKey.from_seed, seed, net, pv, uv)
+            if rootv[0] != "ok":
+                ctx.violation("slip132:from_seed-raises", "from_seed with version bytes %s/%s: %s" % (pv.hex(), uv.hex(), rootv), {"kind": "slip132"})
+                continue
+            i1, i2 = rng.choice([0, 1, 2 ** 31 - 1]), rng.randrange(2 ** 31)
+            for label, nd in [("root", rootv[1]), ("child", outcome(rootv[1].child, i1)), ("path", outcome(rootv[1].traverse, "m/84'/%d/%d" % (i1, i2))),
+                              ("pubchild", outcome(lambda: rootv[1].pub.child(i1)))]:
+                if label != "root":
+                    if nd[0] != "ok":
+                        ctx.violation("slip132:derivation-raises", "%s: %s" % (label, nd), {"kind": "slip132"})
+                        continue
+                    nd = nd[1]
+                for private in ([True, False] if label != "pubchild" else [False]):
+                    vb = pv if private else uv
+                    text = outcome(nd.xprv) if private else outcome(nd.xpub)          # no explicit version argument: the key's own version bytes
+                    back = outcome((hd.HDPrivateKey if private else hd.HDPublicKey).parse, text[1]) if text[0] == "ok" else ("raise", None)
+                    bt = outcome(back[1].xprv if private else back[1].xpub) if back[0] == "ok" else ("raise", "")
+                    pt = nd.private_key.point if label != "pubchild" else nd.point
+                    raw = vb + bytes([nd.depth]) + nd.parent_fingerprint + nd.child_number.to_bytes(4, "big") + nd.chain_code + \
+                        (b"\x00" + nd.private_key.secret.to_bytes(32, "big") if private else pt.sec())
+                    cases.append({"id": "sl%d.%d.%s.%s" % (si, vi, label, "prv" if private else "pub"), "kind": "xkey", "version": B(vb), "depth": nd.depth, "fp": B(nd.parent_fingerprint),
+                                  "number4": B(nd.child_number.to_bytes(4, "big")), "chain": B(nd.chain_code), "private": private,
+                                  "k": le(nd.private_key.secret) if label != "pubchild" else [], "sec": B(pt.sec()), "text": T(text[1]) if text[0] == "ok" else [0],
+                                  "hr": [h256row(raw)], "back_ok": back[0] == "ok", "back_text": T(bt[1]) if bt[0] == "ok" else [], "mainnet": fam == "main",
+                                  "back_mainnet": (back[1].network == "mainnet") if back[0] == "ok" else (fam != "main")})
+                    ctx.nontriv(("slip132", vi, label, private))
         # path traversal: notations / case / depth up to 8, private and public side, against stepwise derivation
         for pi in range(4 if si < 3 else 1):
             depth = rng.choice([0, 1, 2, 3, 5, 8])
